@@ -79,11 +79,7 @@ Definition of_obs (o : Obs) : St :=
 (* is this step inside the input region of a known trigger (evaluated on the model's pre-state)? *)
 Definition known_region (c : Cfg) (s : St) (o : Op) : bool :=
   match o with
-  | OBegin h _ low =>
-      (blockVotesDiff c <? h) &&
-      existsb (fun a => is_active s a && match susp s !! a with Some l => lvh_frozen l && (l_status l =? BYZ) | None => false end) low
   | OEnd q _ =>
-      ((height s <=? blockVotesDiff c) && existsb (fun a => is_frozen s a) (map_to_list (susp s)).*1) ||
       (let active := (elect c s q).2 in
        existsb (fun kr => float_tally_mismatch c active (count_choice YES (r_votes kr.2)) (count_choice NO (r_votes kr.2)))
                (map_to_list (reqs s)))
@@ -135,7 +131,8 @@ Definition byz_frozen (o : Obs) (a : Z) : bool :=
    5 verdict without the votes crossing the share (exact)         6 guilty without a frozen byzantine-fault record
    7 guilty validator's stake not reduced by exactly the penalty  8 bounty credited differs from / exceeds the penalties
    9 a frozen byzantine-fault record changed without a release    10 frozen validator still active after EndBlock
-   known-finding triggers (second number): 1 float_tally_mismatch  2 missed_scan_overwrites_byzantine  3 height_le_votes_diff *)
+   11 a transaction that its handler's Validate must refuse (not signed by the named validator) was executed
+   known-finding trigger (second number): 1 float_tally_mismatch *)
 Definition mon_step (c : Cfg) (h t : Z) (prev : Obs) (st : Step) : list (Z * Z) :=
   let next := s_obs st in
   let frozen_kept :=
@@ -147,7 +144,7 @@ Definition mon_step (c : Cfg) (h t : Z) (prev : Obs) (st : Step) : list (Z * Z) 
             if match o_lookup (o_susp next) a with Some l => lvh_eqb l kv.2 | None => false end then [] else [(9, 0)]
         | OBegin _ _ low =>
             if match o_lookup (o_susp next) a with Some l => lvh_eqb l kv.2 | None => false end then []
-            else [(9, if inb a low && o_active prev a then 2 else 0)]
+            else [(9, 0)]
         | OEnd _ _ =>
             (* a second guilty verdict may renew the record; it must stay a frozen byzantine record *)
             if byz_frozen next a then [] else [(9, 0)]
@@ -170,6 +167,7 @@ Definition mon_step (c : Cfg) (h t : Z) (prev : Obs) (st : Step) : list (Z * Z) 
         end
       else []
   | OBegin _ _ _ => []
+  | OInvalid => if s_ok st then [(11, 0)] else []
   | OEnd queue _ =>
       let active := o_nactive next in
       let req := required_x c active in
@@ -195,7 +193,7 @@ Definition mon_step (c : Cfg) (h t : Z) (prev : Obs) (st : Step) : list (Z * Z) 
        let d := o_bounty next - o_bounty prev in
        if (d =? bnts) && ((d <=? pens * oltDec c) || (bountyDec c <? bountyPct c)) then [] else [(8, 0)]) ++
       flat_map (fun kv => if o_frozen prev kv.1 && o_active next kv.1
-                          then [(10, if h <=? blockVotesDiff c then 3 else 0)] else []) (o_susp prev)
+                          then [(10, 0)] else []) (o_susp prev)
   end.
 
 Fixpoint mon_case (c : Cfg) (i h t : Z) (prev : Obs) (steps : list Step) : list (Z * Z * Z) :=
